@@ -280,3 +280,57 @@ func VerifC19_xerialDispatch() {
 	}
 	verifReached("c19-xerial-dispatch")
 }
+
+// xerialDecode on WELL-FORMED chunks: 1..3 chunks, each a valid snappy block holding one
+// literal of 0..2 symbolic bytes, appended to a destination of 0..1 bytes, under any
+// maxDecompressedSize in range. Unlike VerifC19_xerial (arbitrary bytes, which the real snappy
+// decoder mostly rejects), a counterexample here replays natively against the real library:
+// the result is data of exactly len(dst)+sum(literal lengths) bytes when that fits the limit,
+// and errDecompressedTooLarge (no data) as soon as the running total would exceed it.
+func VerifC19_xerialLiteralChunks() {
+	verifC19Reset()
+	max := verifC19MaxDecompressed()
+	saved := maxDecompressedSize
+	maxDecompressedSize = max
+	defer func() { maxDecompressedSize = saved }()
+
+	var dst []byte
+	if verifChoose(2) == 1 {
+		dst = verifNondetBytes("dst", 1)
+		verifAssume(int64(len(dst)) <= max)
+	}
+	dst0 := append([]byte(nil), dst...)
+	verifC19.decodeBudget = func() int64 { return max - int64(len(dst0)) - int64(len(verifC19.delivered)) }
+
+	src := verifNondetBytes("hdr", 16)
+	k := 1 + verifChoose(3)
+	total := int64(len(dst0))
+	fits := true
+	for i := 0; i < k; i++ {
+		n := verifChoose(3)
+		chunk := []byte{byte(n)}
+		if n > 0 {
+			chunk = append(chunk, byte((n-1)<<2))
+			chunk = append(chunk, verifNondetBytes("lit", n)...)
+		}
+		src = append(src, 0, 0, 0, byte(len(chunk)))
+		src = append(src, chunk...)
+		total += int64(n)
+		if total > max {
+			fits = false
+		}
+	}
+	out, err := xerialDecode(dst, src)
+	verifAssert(verifC19.decodeLenOK, "every chunk's claimed length is checked against the remaining allowance before it is decoded")
+	if err == nil {
+		verifAssert(int64(len(out)) <= max, "xerial output never exceeds maxDecompressedSize")
+		verifAssert(int64(len(out)) == total, "xerial output is dst followed by every chunk's bytes")
+		verifAssert(fits, "a chunk sequence whose running total exceeds maxDecompressedSize is refused")
+	} else {
+		verifAssert(out == nil, "an error comes with no data")
+		if !verifSymbolic() {
+			verifAssert(!fits, "well-formed chunks within the limit decode without error")
+		}
+	}
+	verifReached("c19-xerial-literals")
+}
